@@ -170,6 +170,27 @@ of its own, which a 'case state == …' clause continues. GenBank kept the first
 								if sel, ok := y.Fun.(*ast.SelectorExpr); ok && strings.HasPrefix(sel.Sel.Name, "Write") {
 									ok2 = true
 								}
+								// a helper of the module that writes into the buffer it is handed
+								if f := callee(info, y); f != nil {
+									if hd, hp := c.DeclOf(f); hd != nil && hp != nil && hd.Body != nil && hd.Type.Params != nil {
+										params := flattenParams(hd.Type.Params)
+										hinfo := hp.TypesInfo
+										for i := range y.Args {
+											if i >= len(params) || params[i] == nil {
+												continue
+											}
+											po := hinfo.ObjectOf(params[i])
+											ast.Inspect(hd.Body, func(q ast.Node) bool {
+												if hc, ok := q.(*ast.CallExpr); ok {
+													if hs, ok := hc.Fun.(*ast.SelectorExpr); ok && strings.HasPrefix(hs.Sel.Name, "Write") && po != nil && rootObj(hinfo, hs.X) == po {
+														ok2 = true
+													}
+												}
+												return true
+											})
+										}
+									}
+								}
 							}
 							return true
 						})
